@@ -96,6 +96,7 @@ func Load(dir, goarch string) (*Prog, error) {
 	prog, _ := ssautil.AllPackages(pkgs, ssa.InstantiateGenerics)
 	prog.Build()
 	p.SSA = prog
+	computeSentinels(p)
 	return p, nil
 }
 
@@ -367,4 +368,59 @@ func (p *Prog) Implementations(m *types.Func) []*ssa.Function {
 	}
 	sort.Slice(out, func(i, j int) bool { return out[i].String() < out[j].String() })
 	return out
+}
+
+
+// sentinels: package-level variables that hold a non-nil value for the whole run: every store to them is in a package
+// initialiser and stores a freshly made value (var ErrX = errors.New(...)).
+var sentinels = map[*ssa.Global]bool{}
+
+func computeSentinels(p *Prog) {
+	bad := map[*ssa.Global]bool{}
+	good := map[*ssa.Global]bool{}
+	for fn := range ssautil.AllFunctions(p.SSA) {
+		isInit := fn.Name() == "init" || strings.HasPrefix(fn.Name(), "init#")
+		for _, b := range fn.Blocks {
+			for _, in := range b.Instrs {
+				st, ok := in.(*ssa.Store)
+				if !ok {
+					continue
+				}
+				g, ok := st.Addr.(*ssa.Global)
+				if !ok {
+					continue
+				}
+				if isInit && freshNonNil(st.Val) {
+					good[g] = true
+				} else {
+					bad[g] = true
+				}
+			}
+		}
+	}
+	for g := range good {
+		if !bad[g] {
+			sentinels[g] = true
+		}
+	}
+}
+
+// freshNonNil: the value is non-nil by construction.
+func freshNonNil(v ssa.Value) bool {
+	switch x := v.(type) {
+	case *ssa.MakeInterface, *ssa.Alloc, *ssa.MakeClosure, *ssa.MakeMap, *ssa.MakeSlice, *ssa.MakeChan:
+		return true
+	case *ssa.Call:
+		if sc := x.Call.StaticCallee(); sc != nil && sc.Pkg != nil {
+			switch sc.Pkg.Pkg.Path() + "." + sc.Name() {
+			case "errors.New", "fmt.Errorf":
+				return true
+			}
+		}
+	case *ssa.UnOp:
+		if g, ok := x.X.(*ssa.Global); ok && x.Op == token.MUL && sentinels[g] {
+			return true
+		}
+	}
+	return false
 }
